@@ -38,9 +38,13 @@ CHECKS = {
         'assumptions': ['operands are int64', 'results that do not fit 64 bits are outside the property', '`/` compared bit-for-bit with IEEE double division of the converted operands'],
     },
     'C15': {
-        'lean_modules': ['Pangaea.Theorems.C15'],
-        'theorem_modules': ['Pangaea.Theorems.C15'],
-        'theorems': ['Pangaea.C15.evalBody_eq_spec', 'Pangaea.C15.defers_are_reached', 'Pangaea.C15.evalDefer_log', 'Pangaea.C15.evalStmts_outcome'],
+        'lean_modules': ['Pangaea.Theorems.C15', 'Pangaea.Theorems.C15Core'],
+        'theorem_modules': ['Pangaea.Theorems.C15', 'Pangaea.Theorems.C15Core'],
+        'theorems': ['Pangaea.C15.evalBody_eq_spec', 'Pangaea.C15.defers_are_reached', 'Pangaea.C15.evalDefer_log', 'Pangaea.C15.evalStmts_outcome',
+                     # the Core evaluator computes the sequential specification (BodyRun, then DefersRun)
+                     'Pangaea.C15.runDefers_of_run', 'Pangaea.C15.stmtLoop_of_fin', 'Pangaea.C15.stmtLoop_of_raised', 'Pangaea.C15.body_then_defers',
+                     'Pangaea.C15.guarded_defer_registers', 'Pangaea.C15.defersRun_of_runDefers', 'Pangaea.C15.bodyRun_of_stmtLoop',
+                     'Pangaea.C15.evalStmts_is_body_then_defers'],
         'harness': ['C15', 'C15core'],
         'shards': 14,
         'spec_is_function': True,
@@ -169,10 +173,14 @@ CHECKS = {
         'assumptions': ['the key equivalence never relates a hashable to a non-hashable key (true of the built-in ==)', 'object keys are strs', 'property fallback of m[k] is taken from the live prototype chain by the harness'],
     },
     'C12': {
-        'lean_modules': ['Pangaea.Theorems.C12'],
-        'theorem_modules': ['Pangaea.Theorems.C12'],
+        'lean_modules': ['Pangaea.Theorems.C12', 'Pangaea.Theorems.C12Core'],
+        'theorem_modules': ['Pangaea.Theorems.C12', 'Pangaea.Theorems.C12Core'],
         'theorems': ['Pangaea.C12.one_rule', 'Pangaea.C12.if_then_only', 'Pangaea.C12.if_else_only', 'Pangaea.C12.shortcut_decided',
-                     'Pangaea.C12.shortcut_undecided', 'Pangaea.C12.shortcut_by_truthiness', 'Pangaea.C12.guard_spec'],
+                     'Pangaea.C12.shortcut_undecided', 'Pangaea.C12.shortcut_by_truthiness', 'Pangaea.C12.guard_spec',
+                     # the same statements on the Core evaluator (the one compared with the implementation on generated programs)
+                     'Pangaea.C12.if_true_core', 'Pangaea.C12.if_false_else_core', 'Pangaea.C12.if_false_none_core', 'Pangaea.C12.if_cond_raises_core',
+                     'Pangaea.C12.or_decided_core', 'Pangaea.C12.and_decided_core', 'Pangaea.C12.or_undecided_core', 'Pangaea.C12.and_undecided_core',
+                     'Pangaea.C12.guard_false_core', 'Pangaea.C12.guard_defer_core', 'Pangaea.C12.guard_return_core', 'Pangaea.C12.guard_raises_core'],
         'harness': ['C12', 'C12core', 'C12sweep'],
         'shards': 8,
         'spec_is_function': True,
